@@ -97,12 +97,14 @@ package parser
 //@ props C15
 //@ requires scanInv(s)
 //@ modifies posOffset
-//@ ensures [C03] ghost: posOffset == s.offset
+// ghost update (a definition, not a claim about the code): pos() records the offset it was asked at
+//@ free_ensures ghost: posOffset == s.offset
 //@ ensures line: result.Line == s.line + 1 && 1 <= result.Line
 //@ ensures col: result.Column == s.offset - s.lineHead + 1 && 1 <= result.Column && result.Column <= len(s.src) - s.lineHead + 1
 //@ ensures lines: result.Line <= nl(elems(s.src), off(s.src), len(s.src)) + 1
 //@ ensures ok: posOK(s.src, result)
 //@ use posIn-def(elems(s.src), off(s.src), len(s.src), result.Line, result.Column)
+//@ use posIn-intro(elems(s.src), off(s.src), len(s.src), result.Line, result.Column, s.lineHead)
 //@ use nl-bound(elems(s.src), off(s.src), s.offset)
 //@ use nl-mono(elems(s.src), off(s.src), s.offset, len(s.src) - s.offset)
 
@@ -112,7 +114,7 @@ package parser
 //@ modifies s.offset, s.lineHead, s.line
 //@ ensures inv: scanInv(s)
 //@ ensures [C03 C15] coupled: s.line >= old(s.line) && (s.line == old(s.line) ==> s.lineHead == old(s.lineHead))
-//@ ensures s.offset >= old(s.offset)
+//@ ensures mono: s.offset >= old(s.offset)
 //@ loop 0 invariant scanInv(s) && s.offset >= old(s.offset)
 //@ loop 0 invariant s.line >= old(s.line) && (s.line == old(s.line) ==> s.lineHead == old(s.lineHead))
 //@ loop 0 decreases len(s.src) - s.offset
@@ -122,6 +124,10 @@ package parser
 // posIn is opaque (uninterpreted); its definition is the axiom posIn-def, revealed only in (*Scanner).pos by a "use" clause.
 //@ spec fun posIn(a Arr, o int, n int, line int, col int) bool
 //@ axiom posIn-def: forall a Arr, o int, n int, line int, col int :: posIn(a, o, n, line, col) <==> (1 <= line && line <= nl(a, o, n) + 1 && 1 <= col && (exists h int :: 0 <= h && h + col - 1 <= n && (h == 0 || select(a, o+h-1) == 10) && (forall k int :: h <= k && k < h + col - 1 ==> select(a, o+k) != 10)))
+// posIn-intro: the right-to-left direction of posIn-def with the witness h made a parameter (a logical consequence of
+// posIn-def; stated separately so that (*Scanner).pos can name its witness, the line head, instead of leaving the
+// existential to the solver's heuristics - the proof was unstable without it)
+//@ axiom posIn-intro: forall a Arr, o int, n int, line int, col int, h int :: 1 <= line && line <= nl(a, o, n) + 1 && 1 <= col && 0 <= h && h + col - 1 <= n && (h == 0 || select(a, o+h-1) == 10) && (forall k int :: h <= k && k < h + col - 1 ==> select(a, o+k) != 10) ==> posIn(a, o, n, line, col)
 //@ spec fun posOK(src []rune, p ast.Position) bool = posIn(elems(src), off(src), len(src), p.Line, p.Column)
 
 //@ func (*Scanner).scanIdentifier
@@ -130,7 +136,7 @@ package parser
 //@ modifies s.offset, s.lineHead, s.line
 //@ ensures inv: scanInv(s)
 //@ ensures [C03 C15] coupled: s.line >= old(s.line) && (s.line == old(s.line) ==> s.lineHead == old(s.lineHead))
-//@ ensures s.offset >= old(s.offset)
+//@ ensures mono: s.offset >= old(s.offset)
 //@ loop 0 invariant scanInv(s) && s.offset >= old(s.offset) && (ret == nil || fresh(base(ret)))
 //@ loop 0 invariant s.line >= old(s.line) && (s.line == old(s.line) ==> s.lineHead == old(s.lineHead))
 //@ loop 0 decreases len(s.src) - s.offset
@@ -141,7 +147,7 @@ package parser
 //@ modifies s.offset, s.lineHead, s.line
 //@ ensures inv: scanInv(s)
 //@ ensures [C03 C15] coupled: s.line >= old(s.line) && (s.line == old(s.line) ==> s.lineHead == old(s.lineHead))
-//@ ensures s.offset >= old(s.offset)
+//@ ensures mono: s.offset >= old(s.offset)
 //@ loop 0 invariant scanInv(s) && s.offset >= old(s.offset) && len(result) >= 1 && fresh(base(result))
 //@ loop 0 invariant s.line >= old(s.line) && (s.line == old(s.line) ==> s.lineHead == old(s.lineHead))
 //@ loop 0 decreases len(s.src) - s.offset
